@@ -35,7 +35,7 @@ ASSUMPTIONS = [
     "unspecified, never as violations.",
     "Meaning equality is decided on 6 random hit layouts per rule in addition to the canonical tree comparison.",
 ]
-REQUIRED = ["op:parse-compare", "op:tree-compare", "op:eval-compare", "op:roundtrip", "op:reject-class",
+REQUIRED = ["history:parse-on-shared-base", "op:parse-compare", "op:tree-compare", "op:eval-compare", "op:roundtrip", "op:reject-class",
             "op:corruption", "feature:alias-use", "feature:comment", "feature:multi-text", "feature:multiplier",
             "feature:superiors-transitive", "feature:extenders", "shipped:rules-compared", "op:create_rules-on-files",
             "corruption:both-reject", "corruption:both-accept"]
@@ -337,6 +337,12 @@ def illformed_variants(rng):
     yield "duplicate-rule-across-texts", [base, base.replace("a and", "e and")]
     yield "duplicate-alias", ["DEFINE x AS a\nDEFINE x AS b\n" + base]
     yield "duplicate-alias-across-texts", ["DEFINE x AS a\n" + base, "DEFINE x AS b\n" + second]
+    # a name can be an alias or a rule, never both (the alias body being a single identifier, a group, or longer)
+    for body in ("b", "(b or c)", "b or c"):
+        yield "rule-named-as-alias", [f"DEFINE x AS {body}\n" + base + second.replace("RULE r1", "RULE x")]
+        yield "rule-named-as-alias-across-texts", [f"DEFINE x AS {body}\n" + base, second.replace("RULE r1", "RULE x")]
+    yield "alias-named-as-rule", [base + "DEFINE r0 AS b\n" + second]
+    yield "alias-named-as-rule-across-texts", [base, "DEFINE r0 AS b\n" + second]
     yield "repeated-operand-and", [f"RULE r0 CATEGORY catA CUTOFF 5 NEIGHBOURHOOD 5 CONDITIONS {prof} and b and {prof}\n"
                                    if prof != "b" else "RULE r0 CATEGORY catA CUTOFF 5 NEIGHBOURHOOD 5 CONDITIONS b and a and b\n"]
     yield "repeated-operand-or", ["RULE r0 CATEGORY catA CUTOFF 5 NEIGHBOURHOOD 5 CONDITIONS a or (b and c) or a\n"]
@@ -458,6 +464,44 @@ def shipped_rules(ctx):
     del get_signature_profiles
 
 
+def shared_base(ctx, case):
+    """ the rules of the first text, held by the caller as one list, are the base for several later parses (the
+        following text, a variant of it that must be rejected, the following text again): every parse sees exactly
+        the base, whatever was parsed on top of it before, and the caller's list stays as it was """
+    texts, mult = case["texts"], case["multipliers"]
+    multipliers = Multipliers(cutoff=mult[0], neighbourhood=mult[1])
+    try:
+        first = RP.Parser(texts[0], set(RG.PROFILES), set(CATEGORIES), [], existing_aliases={}, multipliers=multipliers)
+    except ERRORS:
+        return
+    base = list(first.rules)
+    held = first.rules if isinstance(first.rules, list) else list(first.rules)
+    snapshot = list(held)
+    base_aliases = dict(first.aliases)
+    following = texts[1]
+    broken = following + "RULE zz CATEGORY catA CUTOFF 1 NEIGHBOURHOOD 1 CONDITIONS nosuchprofile\n"
+    outcomes = []
+    for label, text in (("following", following), ("rejected-variant", broken), ("following-again", following)):
+        ctx.count("history:parse-on-shared-base")
+        try:
+            parser = RP.Parser(text, set(RG.PROFILES), set(CATEGORIES), held, existing_aliases=dict(base_aliases),
+                               multipliers=multipliers)
+            outcome = [rule.name for rule in parser.rules]
+        except ERRORS as err:
+            outcome = "rejected: " + type(err).__name__
+        outcomes.append(outcome)
+        if len(held) != len(snapshot) or any(a is not b for a, b in zip(held, snapshot)):
+            ctx.violate("callers-rule-list-unchanged-by-parse",
+                        {"after": label, "before": [r.name for r in snapshot], "now": [r.name for r in held]}, case)
+            return
+    if outcomes[0] != outcomes[2]:
+        ctx.violate("same-text-on-same-base-parses-the-same", {"first": outcomes[0], "again": outcomes[2]}, case)
+    elif isinstance(outcomes[0], list) and outcomes[0][:len(base)] != [r.name for r in base]:
+        ctx.violate("parse-on-base-keeps-base-rules", {"got": outcomes[0], "base": [r.name for r in base]}, case)
+    if isinstance(outcomes[1], list):
+        ctx.violate("ill-formed-text-accepted", {"reference_error": "unknown profile nosuchprofile", "rules": outcomes[1][-3:]}, case)
+
+
 def run_file_case(ctx, case, rng, with_corruptions=0):
     real_rules, ref_rules = compare_parsers(ctx, case, rng)
     for feat in case.get("features", []):
@@ -468,6 +512,8 @@ def run_file_case(ctx, case, rng, with_corruptions=0):
     ctx.case(("file", case["texts"], case["multipliers"]), nontrivial=nontrivial, sample=case)
     if real_rules:
         roundtrip(ctx, case, real_rules, rng)
+    if real_rules and ref_rules is not None and len(case["texts"]) > 1:
+        shared_base(ctx, case)
     if with_corruptions and ref_rules is not None and len(case["texts"]) == 1:
         tokens = R.tokenise(case["texts"][0])
         for kind, pos, text in corruptions(tokens, rng, with_corruptions):
